@@ -579,3 +579,8 @@ pub struct LexError {
     #[help]
     pub help_msg: String,
 }
+
+// Verification hook (add-only, compiled only by `cargo kani`): contract harnesses live in /verif.
+#[cfg(kani)]
+#[path = "/verif/kani/harness/sexpr.rs"]
+mod verif_kani;
